@@ -158,7 +158,7 @@ CHECKS = {
         "engine": "c16",
         "level": "fault_enumeration",
         "rule": "one evaluation = one evaluation (test engine; compiled solver for the twisted Edwards cases) of a curve / signature gadget under a plan of faulted hint answers (scalar decompositions, half-GCD, hinted scalar-multiplication results, pairing residue witnesses, recovered public keys: perturbed, swapped, misdirected, replayed, element-level negation / alias / exchange / transfer, degenerate all-zero and all-one answers combined with a perturbed second hint, sign flip, failed), judged by an independent math/big reference (affine short Weierstrass and twisted Edwards arithmetic, ECDSA equation) or gnark-crypto (pairings, BLS12-377 G1); "
-                "a case = (gadget in {sw_emulated ScalarMul / ScalarMulBase / JointScalarMulBase / MultiScalarMul / AddUnified on secp256k1, P-256, BN254, BLS12-381 (P-384, BW6-761 thorough), with and without complete arithmetic; ECDSA secp256k1 / P-256; ECRecover; native twisted Edwards ScalarMul / DoubleBaseScalarMul / Add on 5 curves; native BLS12-377 G1 ScalarMul / ScalarMulBase and PairingCheck in BW6-761; emulated BN254 PairingCheck}, inputs incl. infinity, P = +-Q, scalars 0, 1, 2, r-1, r where the documentation admits them, valid and invalid signatures / pairing equations, fault tape)",
+                "a case = (gadget in {sw_emulated ScalarMul / ScalarMulBase / JointScalarMulBase / MultiScalarMul / AddUnified on secp256k1, P-256, BN254, BLS12-381 (P-384, BW6-761 thorough), with and without complete arithmetic; ECDSA secp256k1 / P-256; ECRecover; native twisted Edwards ScalarMul / DoubleBaseScalarMul / Add on 5 curves; native BLS12-377 G1 ScalarMul / ScalarMulBase and PairingCheck in BW6-761; emulated BN254 and BLS12-381 PairingCheck and AssertFinalExponentiationIsOne; the EVM ECPair precompile (MillerLoopAndMul + MillerLoopAndFinalExpCheck); EdDSA on the BN254 twisted Edwards curve (verdict against gnark-crypto)}, inputs incl. infinity, P = +-Q, scalars 0, 1, 2, r-1, r where the documentation admits them, over-sized native scalars for twisted Edwards, valid and invalid signatures / pairing equations, fault tape)",
         "quick": {"runs": 256, "budget_s": 330, "selftest_runs": 2, "params": {"faults": 8}},
         "thorough": {"runs": 6000, "budget_s": 3000, "selftest_runs": 3, "params": {"faults": 24}},
         "expect_probes": ["faulty_answer_rejected", "focused_hint_calls", "const-all", "emulated-element", "perturb-output", "misdirected", "replayed", "hint-error"],
